@@ -30,6 +30,8 @@ type Scenario struct {
 	Converge bool
 	// Prelude is executed (and must be hit-free) before exploration starts.
 	Prelude []model.Op
+	// Skeleton, if set, replaces the BFS: see RunSkeleton
+	Skeleton *Skeleton
 }
 
 const Bucket = 100 * time.Millisecond
@@ -42,6 +44,9 @@ type Task struct {
 	Path  []string
 	Key   string
 	Drain bool // expand nothing, only drain (final level)
+	// PathOnly: run the path (skipping operations that are not enabled), report
+	// every hit and drain at the end; nothing is expanded (skeleton mode)
+	PathOnly bool
 }
 
 type Succ struct {
@@ -179,6 +184,34 @@ func (wk *Worker) Run(t Task) (res Result) {
 			res.Err = fmt.Sprintf("PANIC in harness: %v", p)
 		}
 	}()
+	if t.PathOnly {
+		r, err := wk.start(sc)
+		if err != nil {
+			res.Err = err.Error()
+			return
+		}
+		for _, l := range t.Path {
+			op, ok := sc.op(l)
+			if !ok {
+				res.Err = "unknown label " + l
+				return
+			}
+			en, _, obs, hits := r.Do(op)
+			if !en {
+				continue
+			}
+			res.Transitions++
+			if len(obs.Msgs) > 0 {
+				res.Succ = append(res.Succ, Succ{Label: l, NMsgs: len(obs.Msgs), Resp: respSummary(obs)})
+			}
+			if len(hits) > 0 {
+				res.Succ = append(res.Succ, Succ{Label: l, Hits: hits, Resp: respSummary(obs)})
+				return
+			}
+		}
+		res.DrainHits, res.DrainOps = r.Drain()
+		return
+	}
 	r, hits, err := wk.Replay(sc, t.Path)
 	if err != nil {
 		res.Err = err.Error()
@@ -732,4 +765,139 @@ func (r *Runner) Converge(variant string) (hits []model.Hit, ops int) {
 		hits = append(hits, model.Hit{Rule: "dead-rows-left", Props: []string{"C15"}, Text: fmt.Sprintf("[%s] at the fixpoint of the maintenance jobs (order %v) dead rows remain: %v", variant, order, left)})
 	}
 	return
+}
+
+// Skeleton is a long fixed life-cycle with every single (and, on a position
+// grid, every pair of) extra alphabet operation inserted at every position.
+type Skeleton struct {
+	Scen     *Scenario // Alphabet must contain the skeleton ops and the deviation ops
+	Path     []model.Op
+	Deviate  []model.Op
+	PairGrid int // pairs of deviations at positions that are multiples of PairGrid (0 = no pairs)
+}
+
+// RunSkeleton executes all deviation variants on the worker processes.
+func RunSkeleton(sk *Skeleton, exe string, workerArgs []string, nWorkers int, deadline time.Time) (Stats, []Violation, error) {
+	st := Stats{PerOp: map[string]int{}, Responses: map[string]int{}, RuleHits: map[string]int{}, Foreign: map[string]int{}, Exhaustive: true}
+	t0 := time.Now()
+	base := make([]string, len(sk.Path))
+	for i, o := range sk.Path {
+		base[i] = o.Label()
+	}
+	var paths [][]string
+	paths = append(paths, base)
+	ins := func(p []string, pos int, l string) []string {
+		out := make([]string, 0, len(p)+1)
+		out = append(out, p[:pos]...)
+		out = append(out, l)
+		return append(out, p[pos:]...)
+	}
+	for pos := 0; pos <= len(base); pos++ {
+		for _, d := range sk.Deviate {
+			paths = append(paths, ins(base, pos, d.Label()))
+		}
+	}
+	if sk.PairGrid > 0 {
+		for p1 := 0; p1 <= len(base); p1 += sk.PairGrid {
+			for p2 := p1; p2 <= len(base); p2 += sk.PairGrid {
+				for _, d1 := range sk.Deviate {
+					for _, d2 := range sk.Deviate {
+						paths = append(paths, ins(ins(base, p2, d2.Label()), p1, d1.Label()))
+					}
+				}
+			}
+		}
+	}
+	procs := make([]*proc, nWorkers)
+	for i := range procs {
+		p, err := startProc(exe, workerArgs, []string{"VERIF_WORKER=1", "GOMAXPROCS=2"})
+		if err != nil {
+			return st, nil, err
+		}
+		procs[i] = p
+	}
+	defer func() {
+		for _, p := range procs {
+			p.in.Close()
+			p.cmd.Wait()
+		}
+	}()
+	tasks := make(chan []string, len(paths))
+	for _, p := range paths {
+		tasks <- p
+	}
+	close(tasks)
+	var mu sync.Mutex
+	var viol []Violation
+	var fatal error
+	var wg sync.WaitGroup
+	for _, p := range procs {
+		wg.Add(1)
+		go func(p *proc) {
+			defer wg.Done()
+			for path := range tasks {
+				mu.Lock()
+				stop := fatal != nil || (!deadline.IsZero() && time.Now().After(deadline))
+				if stop && fatal == nil {
+					st.Exhaustive = false
+				}
+				mu.Unlock()
+				if stop {
+					continue
+				}
+				res, err := p.do(Task{Scen: sk.Scen.ID, Path: path, PathOnly: true})
+				mu.Lock()
+				if err != nil {
+					fatal = err
+				} else if res.Err != "" {
+					fatal = fmt.Errorf("%s", res.Err)
+				} else {
+					st.States++
+					st.Transitions += res.Transitions + res.DrainOps
+					st.DrainRuns++
+					if len(path) > st.MaxDepth {
+						st.MaxDepth = len(path)
+					}
+					for _, s := range res.Succ {
+						if s.NMsgs > 0 {
+							st.NonEmptyPulls++
+						}
+						for _, h := range s.Hits {
+							st.RuleHits[h.Rule]++
+							own := false
+							for _, pr := range h.Props {
+								if pr == sk.Scen.Prop {
+									own = true
+								}
+							}
+							if own {
+								viol = append(viol, Violation{Scen: sk.Scen.ID, Path: append(append([]string{}, path...), "@"+s.Label), Hit: h})
+							} else {
+								st.Foreign[h.Rule]++
+							}
+						}
+					}
+					for _, h := range res.DrainHits {
+						st.RuleHits[h.Rule]++
+						own := false
+						for _, pr := range h.Props {
+							if pr == sk.Scen.Prop {
+								own = true
+							}
+						}
+						if own {
+							viol = append(viol, Violation{Scen: sk.Scen.ID, Path: append(append([]string{}, path...), "<drain>"), Hit: h})
+						} else {
+							st.Foreign[h.Rule]++
+						}
+					}
+				}
+				mu.Unlock()
+			}
+		}(p)
+	}
+	wg.Wait()
+	st.Samples = append(st.Samples, base)
+	st.Wall = time.Since(t0).Seconds()
+	return st, viol, fatal
 }
